@@ -72,6 +72,12 @@ def gen_ops(tier, rng):
                 ops.append((f"new {d} {p} {fl}", {"cat": "new"}))
                 if rng.random() < 0.3:
                     ops.append((f"newstream {d} {p} {fl}", {"cat": "newstream"}))
+    # every option flag on every small shape (deterministic, both tiers)
+    for d in range(0, 5):
+        for p in range(0, 4):
+            for fl in flags:
+                ops.append((f"new {d} {p} {fl}", {"cat": "new-small"}))
+                ops.append((f"newstream {d} {p} {fl}", {"cat": "newstream-small"}))
     # option records that change the derived goroutine / split parameters: every accepted encoder must stay usable
     optflags = ["ag=1000", "ag=4096", "ag=20000", "ag=40000", "ag=65536", "ag=131072", "ag=1000000", "ms=1", "ms=100000",
                 "ag=40000,ms=20000", "ag=131072,ms=60000", "g=1", "g=3", "g=1000", "ag=30000,g=2", "gfni-,avxgfni-,ag=40000",
@@ -150,6 +156,11 @@ def corpus_ops():
     return [("new 200 56 leo8", {"cat": "corpus"}), ("new 40000 20000 -", {"cat": "corpus"}), ("newstream 4 2 leo8", {"cat": "corpus"}),
             ("api default 4 2 join -1 10,10,10,10", {"cat": "corpus"}), ("api default 4 2 alloc -1", {"cat": "corpus"}),
             ("api default 4 3 rec some 4:1 100,n,100,100,100,n,100", {"cat": "corpus"}),
+            # fix 40188d9: a custom matrix with more rows than parity shards
+            ("new 2 1 custom2x3", {"cat": "corpus"}), ("new 3 1 custom2x3", {"cat": "corpus"}), ("new 1 1 custom2x3", {"cat": "corpus"}),
+            ("newstream 2 1 custom2x3", {"cat": "corpus"}),
+            # fix a37e7db: shard-count overflow with a custom matrix
+            ("new 9223372036854775807 1 custom2x3", {"cat": "corpus"}), ("new 9223372036854775806 2 custom2x3", {"cat": "corpus"}),
             # fix bd2a6b4: an empty non-nil old data shard with a replacement given / an empty non-nil parity shard
             ("api default 4 2 upd 10,e,10,10,10,10 n,10,10,10", {"cat": "corpus"}),
             ("api default 4 2 upd 10,10,10,10,e,10 10,n,n,n", {"cat": "corpus"})]
